@@ -218,7 +218,7 @@ void harness(void) { vp_one = 1; g_sc = nondet_int(); vp_in_sc = g_sc; obj_value
                    note='first hop of "the code written to the .sol file is the code the backend reported"')
 
 
-def passthrough_writer(ordinal, which):
+def passthrough_writer(ordinal, which, prop='C10'):
     """SolutionWriterImpl::HandleSolution: the SolutionAdapter handed to the .sol writer carries the status it was given, one value per
     variable / per algebraic constraint (or none when the vector is absent) and the objective number that was used"""
     parts = [PRELUDE, ENUM, '''
@@ -250,7 +250,7 @@ void harness(void) { vp_one = 1; g_nv = nondet_int(); g_nc = nondet_int(); g_obj
   vp_make_adapter(nondet_int(), "m", nondet_bool() ? (const double *)&g_nv : (const double *)0, nondet_bool() ? (const double *)&g_nc : (const double *)0);
   VP_REACH("normal return"); }
 ''']
-    return Harness('C10.passthrough.SolutionWriter.' + which, 'C10', parts, enforce='vp_make_adapter',
+    return Harness(('C10.passthrough.SolutionWriter.' if prop == 'C10' else 'C12.objno_echo.SolutionWriter.') + which, prop, parts, enforce='vp_make_adapter',
                    stubs=['SolutionAdapter constructor (ghost record)', 'builder_.num_vars()/num_algebraic_cons()', 'solver_.objno_used() (C12)'],
                    note='second hop; also carries "one value per variable / algebraic constraint" (C04) and "objno echoed is the one used" (C12)')
 
@@ -335,6 +335,43 @@ def replay_passthrough(lead, inputs, obs):
     return p.returncode != 0, (p.stdout + p.stderr)[-2000:], _pdrv[0]
 
 
+BFLAT = 'include/mp/flat/backend_flat.h'
+
+
+def getsolution_harness():
+    """FlatBackend::GetSolution: the 'known infeasible' mark that leaves the backend with the solution (it makes the converter skip its
+    solution check) is the documented infeasible classification - set exactly for codes 200-299 - and an absent primal / dual vector stays
+    absent after postsolving.  All six predicates are present with their proved contracts, should the code consult another one."""
+    decls = ''.join('bool %s(void)\n__CPROVER_requires(g_sc != -200)\n__CPROVER_ensures(__CPROVER_return_value == (%s))\n__CPROVER_assigns();\n' % (n, e) for n, e in PREDS.items())
+    parts = [PRELUDE, '/* contracts proved by C10.<predicate> */\n' + decls, '''
+typedef struct { long nvar, ncon, nobj; } MV;
+typedef struct { long x, y, obj; } Solution;
+long g_nx, g_ny, g_nobj; int g_post_calls; _Bool g_flag; int g_never;
+static long PrimalSolution(void) { return g_nx; }
+static long DualSolution(void) { return g_ny; }
+static long GetObjectiveValues(void) { return g_nobj; }
+static MV vp_postsolve(long x, long y, long obj, void *known_infeasible) {
+  __CPROVER_assert(x == g_nx && y == g_ny, "the solver's primal and dual values are postsolved");
+  g_flag = known_infeasible != (void *)0; g_post_calls++;
+  MV mv; mv.nvar = nondet_long(); mv.ncon = nondet_long(); mv.nobj = nondet_long(); return mv; }
+''',
+             Fn(BFLAT, r'Solution GetSolution\(\) override', 'Solution GetSolution(void)',
+                contract='__CPROVER_requires(g_sc != -200 && g_nx >= 0 && g_ny >= 0 && g_post_calls == 0) '
+                         '__CPROVER_ensures(g_post_calls == 1 && g_flag == IN(200, 299)) '
+                         '__CPROVER_ensures((g_nx == 0 ==> __CPROVER_return_value.x == 0) && (g_ny == 0 ==> __CPROVER_return_value.y == 0)) __CPROVER_assigns(g_flag, g_post_calls)',
+                subst=[(r'BaseBackend::', '', -1), (r'GetValuePresolver\(\)\.PostsolveSolution\(\s*\{([^{}]*)\}\s*\)', r'vp_postsolve(\1)', 1),
+                       (r'std::move\(', '(', -1), (r'mv\.GetVarValues\(\)\(\)', 'mv.nvar', 1), (r'mv\.GetConValues\(\)\(\)', 'mv.ncon', 1), (r'mv\.GetObjValues\(\)\(\)', 'mv.nobj', 1),
+                       (r'\bx\.empty\(\)', '(x == 0)', 1), (r'\by\.Empty\(\)', '(y == 0)', 1), (r'\b(x1|y1)\.clear\(\);', r'\1 = 0;', 2), (r'return\s*\{', 'return (Solution){', 1)],
+                label='mp::FlatBackend::GetSolution', nmatches=1), '''
+void harness(void) { vp_one = 1; int sc = nondet_int(); __CPROVER_assume(sc != -200); g_sc = sc; g_nx = nondet_long(); g_ny = nondet_long(); g_nobj = nondet_long(); g_post_calls = 0;
+  g_never = 0; if (g_never) { %s }      /* DFCC insists that a replaced function is referenced */
+  GetSolution(); VP_REACH("normal return"); }
+''' % ' '.join('(void)%s();' % n for n in PREDS)]
+    return Harness('C10.FlatBackend.GetSolution', 'C10', parts, enforce='GetSolution', replace=list(PREDS),
+                   stubs=['ValuePresolver::PostsolveSolution (ghost: records the mark; arbitrary result sizes)', 'PrimalSolution / DualSolution / GetObjectiveValues (sizes only)'],
+                   note='modular: uses the contracts of the classification predicates')
+
+
 _mdrv = [None]
 
 
@@ -362,5 +399,5 @@ def _harnesses(tier, seed):
     hs.append(retrieved_harness())
     hs.append(enum_harness())
     hs.append(message_harness())
-    hs += [passthrough_report(), passthrough_writer(0, 'HandleFeasibleSolution'), passthrough_writer(1, 'HandleSolution')] + passthrough_adapter_harnesses()
+    hs += [getsolution_harness(), passthrough_report(), passthrough_writer(0, 'HandleFeasibleSolution'), passthrough_writer(1, 'HandleSolution')] + passthrough_adapter_harnesses()
     return hs
